@@ -260,8 +260,13 @@ impl<'a> TraceGen<'a> {
         let depth = rng.below(4);
         for d in 0..=depth {
             if d > 0 {
-                if rng.pct(85) {
+                if rng.pct(75) {
                     lines.push(format!("Caused by: {}", self.throwable_line(rng)));
+                } else if rng.pct(50) {
+                    // near-miss prefixes in front of a (mostly known) class: only the exact
+                    // `Caused by: ` introduces a cause
+                    let pre = rng.pick(&["Caused by:", "Caused by:  ", "caused by: ", "Caused by : ", " Caused by: ", "\tCaused by: ", "Caused  by: ", "Caused by: Caused by: ", "Suppressed: ", "Caused by:\t"]);
+                    lines.push(format!("{}{}", pre, self.throwable_line(rng)));
                 } else {
                     lines.push("Caused by: not a throwable because of spaces".into());
                 }
@@ -1133,6 +1138,7 @@ pub fn gen_c09(rng: &mut Rng, tier: &str, out: &mut Out) {
         let text = domain_mapping(rng, &cfg);
         map_op(out, true, &text);
         out.d("WRITE".into());
+        out.d("DBG".into());
         let bytes = crate::proto::cur::write_cache_safe(&text);
         out.d(format!("BUF {}", hx(&bytes)));
         out.d("BTEST".into());
@@ -1148,6 +1154,7 @@ pub fn gen_c09(rng: &mut Rng, tier: &str, out: &mut Out) {
         }
         map_op(out, true, t.as_bytes());
         out.d("WRITE".into());
+        out.d("DBG".into());
         let bytes = crate::proto::cur::write_cache_safe(t.as_bytes());
         out.d(format!("BUF {}", hx(&bytes)));
         out.d("BTEST".into());
@@ -1162,6 +1169,7 @@ pub fn gen_c09(rng: &mut Rng, tier: &str, out: &mut Out) {
         let text = threshold_mapping(n);
         map_op(out, true, &text);
         out.d("WRITE".into());
+        out.d("DBG".into());
         let bytes = crate::proto::cur::write_cache_safe(&text);
         out.d(format!("BUF {}", hx(&bytes)));
         out.d("BTEST".into());
@@ -1447,6 +1455,86 @@ pub fn corrupt_buffers(rng: &mut Rng, bytes: &[u8], per: usize) -> Vec<Vec<u8>> 
     v
 }
 
+/// Classes and methods whose names share long common prefixes (next to much shorter names), in a
+/// written cache whose class / member records are then swapped, duplicated or given another
+/// record's name offset: comparators that skip a "known common prefix" meet strings shorter than
+/// it.  Every name is queried on every such buffer.
+fn prefix_disorder_cases(out: &mut Out, rng: &mut Rng, th: bool) {
+    let classes = ["b", "com", "com.example.a", "com.example.b", "com.example.c", "com.example.d", "com.example.e", "com.example.f", "com.example.fé", "com.exampl", "z"];
+    let methods = ["p", "processItemA", "processItemB", "processItemC", "processItemD", "processItemE", "processIt", "q"];
+    let mut t = String::new();
+    for (i, c) in classes.iter().enumerate() {
+        t.push_str(&format!("orig.K{} -> {}:\n", i, c));
+        if i % 3 == 1 {
+            for (j, m) in methods.iter().enumerate() {
+                t.push_str(&format!("    {}:{}:void m{}(int) -> {}\n", j + 1, j + 2, j, m));
+            }
+        }
+    }
+    let bytes = crate::proto::cur::write_cache_safe(t.as_bytes());
+    if bytes.len() < 24 {
+        return;
+    }
+    let nc = get_u32(&bytes, 8) as usize;
+    let nm = get_u32(&bytes, 12) as usize;
+    let coff = 24;
+    let moff = (coff + 28 * nc + 7) / 8 * 8;
+    let emit = |out: &mut Out, b: &[u8]| {
+        out.d(format!("BUF {}", hx(b)));
+        out.count("prefix_disorder_buffers");
+        for c in classes.iter() {
+            out.d(format!("BCLS {}", hxs(c)));
+            out.d(format!("BFRL {} {} 2 -", hxs(c), hxs("processItemC")));
+        }
+        for m in methods.iter() {
+            out.d(format!("BMTH {} {}", hxs("com.example.a"), hxs(m)));
+            out.d(format!("BMTH {} {}", hxs("com"), hxs(m)));
+            out.d(format!("BFRP {} {} {}", hxs("com.example.d"), hxs(m), hxs("int")));
+        }
+        out.d(format!("BSIG {}", hxs("(Lcom/example/d;Lcom/example/f;)Lb;")));
+        out.d(format!("BTXT {}", hxs("x.Y: m\n    at com.example.d.processItemC(F.java:2)\n    at b.p(F.java:1)\n")));
+    };
+    let pairs: Vec<(usize, usize)> = if th {
+        (0..nc).flat_map(|i| (0..nc).map(move |j| (i, j))).filter(|(i, j)| i != j).collect()
+    } else {
+        (0..nc).flat_map(|i| (i + 1..nc).map(move |j| (i, j))).collect()
+    };
+    for (i, j) in pairs {
+        // swap class records i and j
+        let mut b = bytes.clone();
+        for k in 0..28 {
+            b.swap(coff + 28 * i + k, coff + 28 * j + k);
+        }
+        emit(out, &b);
+        // duplicate record j over record i
+        if (i + j) % 3 == 0 || th {
+            let mut b = bytes.clone();
+            for k in 0..28 {
+                b[coff + 28 * i + k] = bytes[coff + 28 * j + k];
+            }
+            emit(out, &b);
+        }
+        // only the name offset of record i redirected to record j's name
+        if (i + j) % 3 == 1 || th {
+            let mut b = bytes.clone();
+            let v = get_u32(&bytes, coff + 28 * j);
+            set_u32(&mut b, coff + 28 * i, v);
+            emit(out, &b);
+        }
+    }
+    for _ in 0..(if th { 200 } else { 30 }) {
+        if nm < 2 {
+            break;
+        }
+        let (i, j) = (rng.below(nm), rng.below(nm));
+        let mut b = bytes.clone();
+        for k in 0..36 {
+            b.swap(moff + 36 * i + k, moff + 36 * j + k);
+        }
+        emit(out, &b);
+    }
+}
+
 pub fn gen_c12(rng: &mut Rng, tier: &str, out: &mut Out) {
     let th = thorough(tier);
     let n = if th { 4800 } else { 440 };
@@ -1486,6 +1574,7 @@ pub fn gen_c12(rng: &mut Rng, tier: &str, out: &mut Out) {
             out.d(format!("BTYP {}", hxs(s)));
         }
     }
+    prefix_disorder_cases(out, rng, th);
     // F5 anchor: endline truncated to 0 with a real original range
     let text = b"o.A -> a:\n    5:4294967296:void x():1:3 -> m\n";
     let bytes = crate::proto::cur::write_cache_safe(text);
@@ -1598,6 +1687,25 @@ pub fn gen_c15(rng: &mut Rng, tier: &str, out: &mut Out) {
     }
 }
 
+/// One mapper / cache asked for more distinct class paths than any bounded memo would hold
+/// (1 100, 2 100 or 4 200 classes), then for the earliest ones again, mapped and unmapped mixed.
+fn many_class_sig_ops(out: &mut Out, n: usize) {
+    let mut t = String::with_capacity(n * 24);
+    for i in 0..n {
+        t.push_str(&format!("com.gen.Type{} -> g.t{}:\n", i, i));
+    }
+    map_op(out, true, t.as_bytes());
+    for i in 0..n {
+        let sig = if i % 3 == 0 { format!("(Lg/t{};I)Ljava/lang/String{};", i, i) } else { format!("([Lg/t{};)V", i) };
+        out.d(format!("SIG {}", hxs(&sig)));
+    }
+    for i in (0..40).chain(n - 20..n) {
+        out.d(format!("SIG {}", hxs(&format!("(Lg/t{};Ljava/lang/String{};)Lg/t{};", i, i - i % 3, n - 1 - i))));
+        out.d(format!("CLS {}", hxs(&format!("g.t{}", i))));
+    }
+    out.count("many_class_signature_runs");
+}
+
 pub fn gen_c16(rng: &mut Rng, tier: &str, out: &mut Out) {
     let th = thorough(tier);
     let n = if th { 6000 } else { 600 };
@@ -1612,6 +1720,7 @@ pub fn gen_c16(rng: &mut Rng, tier: &str, out: &mut Out) {
         }
         out.d(format!("SIG {}", hxs(&s)));
     }
+    many_class_sig_ops(out, if th { 4200 } else { 1100 });
     // bounded-exhaustive: all descriptors with ≤ 3 parameters over a 6-type alphabet
     map_op(out, true, b"o.A -> a:\no.Lib -> Lib:\n");
     const T: &[&str] = &["I", "La;", "[J", "LLib;", "[[Lx/y;", "Z"];
@@ -1685,6 +1794,13 @@ pub fn gen_c17(rng: &mut Rng, tier: &str, out: &mut Out) {
         let line = rng.pick(&[0usize, 1, 77, 1 << 32, usize::MAX, usize::MAX - 1]);
         out.d(format!("DSPF {} {} {} {}", hxs(&c), hxs(&m), line, opt_hxs(if rng.pct(80) { Some("F.java") } else { None })));
         out.d(format!("DSPT {} {}", hxs(&c), opt_hxs(if rng.pct(60) { Some(rng.pick(MESSAGES)) } else { None })));
+        if rng.pct(25) {
+            // constructors and accessors: new / with_file / with_parameters, full_method
+            let f = if rng.pct(50) { Some("F.java") } else { None };
+            let p = if rng.pct(40) { Some(rng.pick(&["", "int", "int,long", "java.lang.String"])) } else { None };
+            out.d(format!("SF {} {} {} {} {}", hxs(&c), hxs(&m), line, opt_hxs(f), opt_hxs(p)));
+            out.d(format!("FULL {} {}", hxs(&c), hxs(&m)));
+        }
     }
 }
 
@@ -1929,6 +2045,7 @@ pub fn gen_c20(rng: &mut Rng, tier: &str, out: &mut Out) {
         let tg = TraceGen { u: &u };
         out.d(format!("TXT {}", hxs(&tg.text(rng))));
     }
+    many_class_sig_ops(out, if th { 2100 } else { 1100 });
 }
 
 pub fn generate(prop: &str, tier: &str, seed: u64) -> Option<Out> {
